@@ -34,7 +34,7 @@ func readTlvStream(
 		for {
 			rdr := enc.NewBufferReader(recvBuf[tlvOff:recvOff])
 
-			typ, err := enc.ReadTLNum(rdr)
+			_, err := enc.ReadTLNum(rdr)
 			if err != nil {
 				// Probably incomplete packet
 				break
@@ -51,7 +51,9 @@ func readTlvStream(
 				return errors.New("received TLV block larger than the maximum packet size")
 			}
 
-			tlvSize := typ.EncodingLength() + len.EncodingLength() + int(len)
+			// The header occupies the bytes actually consumed: ReadTLNum also
+			// accepts type and length numbers that are not in shortest form
+			tlvSize := rdr.Pos() + int(len)
 
 			if recvOff-tlvOff >= tlvSize {
 				// Packet was successfully received, send up to link service
